@@ -34,7 +34,7 @@ def bootSwap (n : Node) (d : Db) : Node :=
 def stateAt (n : Node) : Pt → Node
   | .rest => n
   | .writeLogged c => appendEntry n c
-  | .loadHalfSwapped d => { appendEntry n (.load d) with dbFileOk := false }
+  | .loadHalfSwapped d => swapRun (swapSteps.take 4) (some d) (appendEntry n (.load d))   -- up to and incl. RemoveFiles
   | .snapStep k => C33.snapPrefix n k
   | .snapCompacted t => snapshot n t
   | .bootLogged => appendEntry n .noop
@@ -85,6 +85,11 @@ theorem stateAt_spec {n : Node} (g : C22.Good n) (pt : Pt) :
     exact ⟨durInv_appendEntry h c, q.nopeers, by show truth (appendEntry n c) = _; rw [truth_appendEntry n c h, q.live]; rfl⟩
   | loadHalfSwapped d =>
     have ha := durInv_appendEntry h (.load d)
+    have e : swapRun (swapSteps.take 4) (some d) (appendEntry n (.load d)) =
+        { appendEntry n (.load d) with dbFileOk := false } := by
+      simp [swapRun, swapSteps, List.take, List.foldl, swapStep]
+    show DurInv (swapRun _ _ _) ∧ (swapRun _ _ _).peersFile = none ∧ truth (swapRun _ _ _) = d
+    rw [e]
     refine ⟨⟨ha.snap_le, ha.nosnap, fun _ hok => by cases hok⟩, q.nopeers, ?_⟩
     show truth (appendEntry n (.load d)) = d
     rw [truth_appendEntry n _ h]; rfl
@@ -165,40 +170,39 @@ theorem fast_and_rebuild_paths_agree (hist : List C22.Op) (pt : Pt) :
 /-! ### a crash during recovery, any number of times -/
 
 /-- the durable states `Open` passes through on the rebuild path (the fast path changes
-nothing durable): temp directories removed; fingerprint removed; database swapped;
-fingerprint written -/
-def partialOpen (n : Node) : Nat → Node
-  | 0 => openPrep n
-  | 1 => { openPrep n with fp := false }
-  | 2 => match n.snap with
-    | some (_, d) => { openPrep n with fp := false, dbFile := d, dbFileOk := true }
-    | none => { openPrep n with fp := false, dbFile := [], dbFileOk := true }
-  | _ => match n.snap with
-    | some (_, d) => { openPrep n with fp := true, dbFile := d, dbFileOk := true }
-    | none => { openPrep n with fp := false, dbFile := [], dbFileOk := true }
+nothing durable): temp directories removed, then the first `k` steps of `fsmRestore` -/
+def partialOpen (n : Node) (k : Nat) : Node :=
+  match n.snap with
+  | some (i, d) => (restoreSteps.take k).foldl (restoreStep i d) (openPrep n)
+  | none => if k < 3 then { openPrep n with fp := false } else { openPrep n with fp := false, dbFile := [], dbFileOk := true }
 
 theorem partialOpen_spec {n : Node} (h : DurInv n) (k : Nat) :
     DurInv (partialOpen n k) ∧ truth (partialOpen n k) = truth n ∧ (partialOpen n k).peersFile = n.peersFile := by
-  match k with
-  | 0 => exact ⟨durInv_openPrep h, rfl, rfl⟩
-  | 1 => exact ⟨⟨h.snap_le, h.nosnap, fun hf => by cases hf⟩, rfl, rfl⟩
-  | 2 =>
-    cases hs : n.snap with
-    | none =>
-      have e : partialOpen n 2 = { openPrep n with fp := false, dbFile := [], dbFileOk := true } := by simp [partialOpen, hs]
+  cases hs : n.snap with
+  | none =>
+    unfold partialOpen; rw [hs]; simp only
+    split <;> exact ⟨⟨h.snap_le, h.nosnap, fun hf => by cases hf⟩, rfl, rfl⟩
+  | some p =>
+    obtain ⟨i, d⟩ := p
+    have hp := durInv_openPrep h
+    match k with
+    | 0 =>
+      have e : partialOpen n 0 = openPrep n := by simp [partialOpen, hs, restoreSteps, List.take, List.foldl]
+      rw [e]; exact ⟨hp, rfl, rfl⟩
+    | 1 =>
+      have e : partialOpen n 1 = openPrep n := by simp [partialOpen, hs, restoreSteps, List.take, List.foldl, restoreStep]
+      rw [e]; exact ⟨hp, rfl, rfl⟩
+    | 2 =>
+      have e : partialOpen n 2 = { openPrep n with fp := false } := by
+        simp [partialOpen, hs, restoreSteps, List.take, List.foldl, restoreStep]
       rw [e]; exact ⟨⟨h.snap_le, h.nosnap, fun hf => by cases hf⟩, rfl, rfl⟩
-    | some p =>
-      obtain ⟨i, d⟩ := p
-      have e : partialOpen n 2 = { openPrep n with fp := false, dbFile := d, dbFileOk := true } := by simp [partialOpen, hs]
+    | 3 =>
+      have e : partialOpen n 3 = { openPrep n with fp := false, dbFile := d, dbFileOk := true, live := d, applied := i } := by
+        simp [partialOpen, hs, restoreSteps, List.take, List.foldl, restoreStep]
       rw [e]; exact ⟨⟨h.snap_le, h.nosnap, fun hf => by cases hf⟩, rfl, rfl⟩
-  | (k + 3) =>
-    cases hs : n.snap with
-    | none =>
-      have e : partialOpen n (k + 3) = { openPrep n with fp := false, dbFile := [], dbFileOk := true } := by simp [partialOpen, hs]
-      rw [e]; exact ⟨⟨h.snap_le, h.nosnap, fun hf => by cases hf⟩, rfl, rfl⟩
-    | some p =>
-      obtain ⟨i, d⟩ := p
-      have e : partialOpen n (k + 3) = { openPrep n with fp := true, dbFile := d, dbFileOk := true } := by simp [partialOpen, hs]
+    | (k + 4) =>
+      have e : partialOpen n (k + 4) = { openPrep n with fp := true, dbFile := d, dbFileOk := true, live := d, applied := i } := by
+        simp [partialOpen, hs, restoreSteps, List.take, List.foldl, restoreStep]
       rw [e]; exact ⟨⟨h.snap_le, h.nosnap, fun _ _ => ⟨i, d, hs, rfl⟩⟩, rfl, rfl⟩
 
 /-- recoveries interrupted at the given steps, one after the other -/
@@ -249,32 +253,41 @@ theorem fingerprint_before_install_witness :
     let bad := snapFingerprint (snapPersist (snapCheckpoint n))     -- fingerprint, then crash before install
     n.live = [(1, 1)] ∧ (openNode (crash bad)).live = [(1, 2)] := by decide
 
-/-- **fingerprint_removed_before_swap**: in the restore sequence the state with the new
-database file in place never carries the old fingerprint -/
-theorem fingerprint_removed_before_swap (n : Node) : (partialOpen n 1).fp = false ∧ (partialOpen n 2).fp = false := by
-  refine ⟨rfl, ?_⟩
-  cases hs : n.snap with
-  | none => simp [partialOpen, hs]
-  | some p => simp [partialOpen, hs]
+/-- **fingerprint_removed_before_swap**: in `fsmRestore`'s step list, no state with the new
+database file in place carries a fingerprint written for the old one: the fingerprint is
+false from the removal step until the step that writes the new one -/
+theorem fingerprint_removed_before_swap (n : Node) (i : Nat) (d : Db) (hs : n.snap = some (i, d)) :
+    (partialOpen n 2).fp = false ∧ (partialOpen n 3).fp = false ∧ (partialOpen n 3).dbFile = d ∧
+    (partialOpen n 4).fp = true ∧ (partialOpen n 4).dbFile = d := by
+  simp [partialOpen, hs, restoreSteps, List.take, List.foldl, restoreStep]
 
+/-- **the fingerprint never lies**, whatever fails: after ANY history — including snapshots whose
+Persist failed after the checkpoint and snapshots whose finalizer failed after the install —
+a fingerprint that is present and matches the database file implies that the file IS the newest
+installed snapshot's database (this is what makes the fast path of `Open` sound) -/
+theorem fingerprint_matches_newest_snapshot (hist : List C22.Op) :
+    let n := C22.run {} hist
+    n.fp = true → ∃ i d, n.snap = some (i, d) ∧ n.dbFile = d := by
+  intro n hf
+  have g := C22.good_run C22.good_init hist
+  exact g.1.fp_ok hf g.2.fileok
+
+/-- the model's step lists ARE the extracted ones: `Persist`, `Sink.Close`, `fsmRestore`, `Swap` -/
 theorem code_snapshot_step_order :
-    RqModel.Gen.StoreOrder.persistSteps = ["f.FSMSnapshot.Persist", "ac.SetAfterClose", "f.Finalizer"] ∧
-    RqModel.Gen.StoreOrder.sinkCloseSteps =
-      ["os.Rename", "sd.MoveWALFilesTo", "s.sinkW.Close", "writeMeta", "os.Rename", "s.stc.SetDueNext", "s.afterClose"] ∧
+    RqModel.Gen.StoreOrder.persistSteps = persistSteps.map PersistStep.code ∧
+    RqModel.Gen.StoreOrder.sinkCloseSteps = sinkCloseSteps.map SinkStep.code ∧
     RqModel.Gen.StoreOrder.fingerprintSteps =
-      ["s.db.DBLastModified", "s.db.FileSize", "rsum.CRC32WithTiming", "fp.WriteToFile", "os.Rename"] := ⟨rfl, rfl, rfl⟩
+      ["s.db.DBLastModified", "s.db.FileSize", "rsum.CRC32WithTiming", "fp.WriteToFile", "os.Rename"] := ⟨by decide, by decide, rfl⟩
 
 theorem code_restore_step_order :
-    RqModel.Gen.StoreOrder.restoreSteps =
-      ["snapshot.Restore", "fsutil.RemoveFile", "s.db.Swap", "s.createSnapshotFingerprint"] := rfl
+    RqModel.Gen.StoreOrder.restoreSteps = restoreSteps.map RestoreStep.code := by decide
 
 theorem code_open_step_order :
     RqModel.Gen.StoreOrder.openSteps =
       ["snapshot.NewStore", "snapshotStore.Len", "fp.ReadFromFile", "fsutil.ModTimeSize", "rlog.New",
        "raft.ReadConfigJSON", "recoverNode", "createDBOnDisk", "os.RemoveAll", "raft.NewRaft"] ∧
     RqModel.Gen.StoreOrder.createDBSteps = ["sql.RemoveFiles", "sql.RemoveWALFiles", "sql.OpenSwappable"] ∧
-    RqModel.Gen.StoreOrder.swapSteps =
-      ["IsValidSQLiteFile", "checkSQLiteFileOpens", "s.db.Close", "RemoveFiles", "os.Rename", "OpenWithDriver"] := ⟨rfl, rfl, rfl⟩
+    RqModel.Gen.StoreOrder.swapSteps = swapSteps.map SwapStep.code := ⟨rfl, rfl, by decide⟩
 
 /-! ### non-vacuity -/
 
